@@ -148,7 +148,8 @@ def cases(tier, seed):
         for shape, mask in FIXED:
             out.append({'prod': 'B-date', 'shape': list(shape), 'mask': mask, 'rot': rot, 'header': 1,
                         'layout': 'csr', 'date': dt})
-    for ty in D.TYPES:
+    # every vocabulary type, none, and free text incl. the empty string (falsy but not None)
+    for ty in D.TYPES + ['', ' ', '0', 'my "type" \\ ü\u2028']:
         out.append({'prod': 'B-type', 'shape': [2, 2], 'mask': 0b0110, 'rot': rot, 'type': ty,
                     'layout': 'csr'})
     for k, v in enumerate(md_values(tier)):
